@@ -9,6 +9,7 @@ import (
 
 	"github.com/ThreeDotsLabs/watermill"
 	"github.com/ThreeDotsLabs/watermill/message"
+	"github.com/ThreeDotsLabs/watermill/verifhook"
 )
 
 // Config holds the GoChannel Pub/Sub's configuration options.
@@ -90,19 +91,28 @@ func (g *GoChannel) Publish(topic string, messages ...*message.Message) error {
 		messagesToPublish[i] = msg.Copy()
 	}
 
+	verifhook.At("gochannel.publish.rrequest", topic)
 	g.subscribersLock.RLock()
 	defer g.subscribersLock.RUnlock()
+	defer verifhook.At("gochannel.publish.runlock", topic)
+	verifhook.At("gochannel.publish.rlocked", topic)
 
 	subLock, _ := g.subscribersByTopicLock.LoadOrStore(topic, &sync.Mutex{})
 	subLock.(*sync.Mutex).Lock()
 	defer subLock.(*sync.Mutex).Unlock()
+	defer verifhook.At("gochannel.publish.topic_unlock", topic)
+	verifhook.At("gochannel.publish.topic_locked", topic)
 
 	if g.config.Persistent {
 		g.persistedMessagesLock.Lock()
+		verifhook.At("gochannel.publish.before_persist", topic)
 		if _, ok := g.persistedMessages[topic]; !ok {
 			g.persistedMessages[topic] = make([]*message.Message, 0)
 		}
 		g.persistedMessages[topic] = append(g.persistedMessages[topic], messagesToPublish...)
+		if verifhook.Enabled {
+			verifhook.At("gochannel.publish.persisted", append([]string{topic}, messagesToPublish.IDs()...)...)
+		}
 		g.persistedMessagesLock.Unlock()
 	}
 
@@ -126,16 +136,22 @@ func (g *GoChannel) waitForAckFromSubscribers(msg *message.Message, ackedByConsu
 	logFields := watermill.LogFields{"message_uuid": msg.UUID}
 	g.logger.Debug("Waiting for subscribers ack", logFields)
 
+	verifhook.At("gochannel.publish.wait_ack", msg.UUID)
 	select {
 	case <-ackedByConsumer:
+		verifhook.At("gochannel.publish.wait_done", msg.UUID, "acked")
 		g.logger.Trace("Message acked by subscribers", logFields)
 	case <-g.closing:
+		verifhook.At("gochannel.publish.wait_done", msg.UUID, "closing")
 		g.logger.Trace("Closing Pub/Sub before ack from subscribers", logFields)
 	}
 }
 
 func (g *GoChannel) sendMessage(topic string, message *message.Message) (<-chan struct{}, error) {
 	subscribers := g.topicSubscribers(topic)
+	if verifhook.Enabled {
+		verifhook.At("gochannel.publish.snapshot", append([]string{topic, message.UUID}, subscriberUUIDs(subscribers)...)...)
+	}
 	ackedBySubscribers := make(chan struct{})
 
 	logFields := watermill.LogFields{"message_uuid": message.UUID, "topic": topic}
@@ -160,6 +176,7 @@ func (g *GoChannel) sendMessage(topic string, message *message.Message) (<-chan 
 		}
 
 		wg.Wait()
+		verifhook.At("gochannel.publish.all_acked", message.UUID)
 		close(ackedBySubscribers)
 	}(subscribers)
 
@@ -174,17 +191,22 @@ func (g *GoChannel) Subscribe(ctx context.Context, topic string) (<-chan *messag
 	g.closedLock.Lock()
 
 	if g.closed {
+		verifhook.At("gochannel.subscribe.closed", topic)
 		g.closedLock.Unlock()
 		return nil, errors.New("Pub/Sub closed")
 	}
 
 	g.subscribersWg.Add(1)
+	verifhook.At("gochannel.subscribe.wg_added", topic)
 	g.closedLock.Unlock()
 
+	verifhook.At("gochannel.subscribe.wrequest", topic)
 	g.subscribersLock.Lock()
+	verifhook.At("gochannel.subscribe.wlocked", topic)
 
 	subLock, _ := g.subscribersByTopicLock.LoadOrStore(topic, &sync.Mutex{})
 	subLock.(*sync.Mutex).Lock()
+	verifhook.At("gochannel.subscribe.topic_locked", topic)
 
 	s := &subscriber{
 		ctx:           ctx,
@@ -193,44 +215,62 @@ func (g *GoChannel) Subscribe(ctx context.Context, topic string) (<-chan *messag
 		logger:        g.logger,
 		closing:       make(chan struct{}),
 	}
+	verifhook.At("gochannel.subscribe.created", topic, s.uuid)
 
 	go func(s *subscriber, g *GoChannel) {
 		select {
 		case <-ctx.Done():
 			// unblock
+			verifhook.At("gochannel.teardown.woken", s.uuid, "ctx")
 		case <-g.closing:
 			// unblock
+			verifhook.At("gochannel.teardown.woken", s.uuid, "closing")
 		}
 
 		s.Close()
 
+		verifhook.At("gochannel.unsubscribe.wrequest", s.uuid)
 		g.subscribersLock.Lock()
 		defer g.subscribersLock.Unlock()
+		defer verifhook.At("gochannel.unsubscribe.wunlock", s.uuid)
+		verifhook.At("gochannel.unsubscribe.wlocked", s.uuid)
 
 		subLock, _ := g.subscribersByTopicLock.Load(topic)
 		subLock.(*sync.Mutex).Lock()
 		defer subLock.(*sync.Mutex).Unlock()
+		defer verifhook.At("gochannel.unsubscribe.topic_unlock", s.uuid)
+		verifhook.At("gochannel.unsubscribe.topic_locked", s.uuid)
 
+		verifhook.At("gochannel.unsubscribe.before_remove", s.uuid)
 		g.removeSubscriber(topic, s)
+		verifhook.At("gochannel.unsubscribe.wg_done", s.uuid)
 		g.subscribersWg.Done()
 	}(s, g)
 
 	if !g.config.Persistent {
 		defer g.subscribersLock.Unlock()
+		defer verifhook.At("gochannel.subscribe.wunlock", s.uuid)
 		defer subLock.(*sync.Mutex).Unlock()
+		defer verifhook.At("gochannel.subscribe.topic_unlock", s.uuid)
 
 		g.addSubscriber(topic, s)
+		verifhook.At("gochannel.subscribe.registered", topic, s.uuid)
 
 		return s.outputChannel, nil
 	}
 
 	go func(s *subscriber) {
 		defer g.subscribersLock.Unlock()
+		defer verifhook.At("gochannel.subscribe.wunlock", s.uuid)
 		defer subLock.(*sync.Mutex).Unlock()
+		defer verifhook.At("gochannel.subscribe.topic_unlock", s.uuid)
 
 		g.persistedMessagesLock.RLock()
 		messages, ok := g.persistedMessages[topic]
 		g.persistedMessagesLock.RUnlock()
+		if verifhook.Enabled {
+			verifhook.At("gochannel.subscribe.replay", append([]string{topic, s.uuid}, message.Messages(messages).IDs()...)...)
+		}
 
 		if ok {
 			for i := range messages {
@@ -242,6 +282,7 @@ func (g *GoChannel) Subscribe(ctx context.Context, topic string) (<-chan *messag
 		}
 
 		g.addSubscriber(topic, s)
+		verifhook.At("gochannel.subscribe.registered", topic, s.uuid)
 	}(s)
 
 	return s.outputChannel, nil
@@ -284,6 +325,9 @@ func (g *GoChannel) topicSubscribers(topic string) []*subscriber {
 func (g *GoChannel) isClosed() bool {
 	g.closedLock.Lock()
 	defer g.closedLock.Unlock()
+	if verifhook.Enabled {
+		verifhook.At("gochannel.publish.closed_check", closedString(g.closed))
+	}
 
 	return g.closed
 }
@@ -292,19 +336,25 @@ func (g *GoChannel) isClosed() bool {
 func (g *GoChannel) Close() error {
 	g.closedLock.Lock()
 	defer g.closedLock.Unlock()
+	defer verifhook.At("gochannel.close.unlock")
+	verifhook.At("gochannel.close.locked")
 
 	if g.closed {
+		verifhook.At("gochannel.close.already")
 		return nil
 	}
 
 	g.closed = true
+	verifhook.At("gochannel.close.signalled")
 	close(g.closing)
 
 	g.logger.Debug("Closing Pub/Sub, waiting for subscribers", nil)
 	g.subscribersWg.Wait()
+	verifhook.At("gochannel.close.waited")
 
 	g.logger.Info("Pub/Sub closed", nil)
 	g.persistedMessages = nil
+	verifhook.At("gochannel.close.nil_persisted")
 
 	return nil
 }
@@ -326,23 +376,31 @@ func (s *subscriber) Close() {
 	if s.closed {
 		return
 	}
+	verifhook.At("gochannel.sub.close.signal", s.uuid)
 	close(s.closing)
 
 	s.logger.Debug("Closing subscriber, waiting for sending lock", nil)
 
 	// ensuring that we are not sending to closed channel
+	verifhook.At("gochannel.sub.close.before_lock", s.uuid)
 	s.sending.Lock()
 	defer s.sending.Unlock()
+	defer verifhook.At("gochannel.sub.close.unlock", s.uuid)
+	verifhook.At("gochannel.sub.close.locked", s.uuid)
 
 	s.logger.Debug("GoChannel Pub/Sub Subscriber closed", nil)
 	s.closed = true
 
+	verifhook.At("gochannel.sub.close.closing_output", s.uuid)
 	close(s.outputChannel)
 }
 
 func (s *subscriber) sendMessageToSubscriber(msg *message.Message, logFields watermill.LogFields) {
+	verifhook.At("gochannel.send.start", msg.UUID, s.uuid)
 	s.sending.Lock()
 	defer s.sending.Unlock()
+	defer verifhook.At("gochannel.send.unlock", msg.UUID, s.uuid)
+	verifhook.At("gochannel.send.locked", msg.UUID, s.uuid)
 
 	ctx, cancelCtx := context.WithCancel(s.ctx)
 	defer cancelCtx()
@@ -357,26 +415,34 @@ SendToSubscriber:
 		s.logger.Trace("Sending msg to subscriber", logFields)
 
 		if s.closed {
+			verifhook.At("gochannel.send.discard_closed", msg.UUID, s.uuid)
 			s.logger.Info("Pub/Sub closed, discarding msg", logFields)
 			return
 		}
 
+		verifhook.At("gochannel.send.before_chan", msg.UUID, s.uuid)
 		select {
 		case s.outputChannel <- msgToSend:
+			verifhook.At("gochannel.send.sent", msg.UUID, s.uuid)
 			s.logger.Trace("Sent message to subscriber", logFields)
 		case <-s.closing:
+			verifhook.At("gochannel.send.closing_before_send", msg.UUID, s.uuid)
 			s.logger.Trace("Closing, message discarded", logFields)
 			return
 		}
 
+		verifhook.At("gochannel.send.wait_settle", msg.UUID, s.uuid)
 		select {
 		case <-msgToSend.Acked():
+			verifhook.At("gochannel.send.acked", msg.UUID, s.uuid)
 			s.logger.Trace("Message acked", logFields)
 			return
 		case <-msgToSend.Nacked():
+			verifhook.At("gochannel.send.nacked", msg.UUID, s.uuid)
 			s.logger.Trace("Nack received, resending message", logFields)
 			continue SendToSubscriber
 		case <-s.closing:
+			verifhook.At("gochannel.send.closing_after_send", msg.UUID, s.uuid)
 			s.logger.Trace("Closing, message discarded", logFields)
 			return
 		}
